@@ -5,11 +5,13 @@ unless the last column's absolute sum is under sift_thresh, columns sum to x wit
 the last column has < 2 strict interior maxima or < 2 strict interior minima.
 An in-process probe classifies the exit path of every single-IMF extraction (A/B/C) so that the
 evidence shows the workload reached the input-dependent paths the unit test never sees."""
+import contextlib
+
 import numpy as np
 
 from .. import gens
 from ..harness import watchdog, WatchdogTimeout, MonitorAbort, digest
-from ..monitors import SiftProbe
+from ..monitors import SiftProbe, FastClock
 from ..refmodels import count_extrema
 
 MANIFEST = {
@@ -53,7 +55,27 @@ def gen_case(rng):
     xp, _, tag = gens.present(rng, x, p_plain=.8)
     if tag == 'strided':
         xp = np.asarray(x)
-    return {'kind': 'sift', 'family': kind, 'x': xp, 'imf_opts': io, 'envelope_opts': eo, 'extrema_opts': xo, 'presentation': tag}
+    c = {'kind': 'sift', 'family': kind, 'x': xp, 'imf_opts': io, 'envelope_opts': eo, 'extrema_opts': xo, 'presentation': tag}
+    if rng.random() < .15:
+        c['clock_step'] = float(gens.pick(rng, [60., 1200., 1e5]))     # fault injection: the clocks of `time` run fast during the call
+    return c
+
+
+def long_swell(rng):
+    """A very long, very smooth record (two to four cycles of a swell plus drift, 70 000 - 140 000 samples) cut so that a crest or a
+    trough falls exactly on, or next to, a multiple of 2**16 samples."""
+    n = int(rng.integers(70000, 140000))
+    t = np.arange(n + 80000)
+    # (mostly barely more than two cycles: the record then has exactly two crests or two troughs, the minimum for an envelope)
+    P = n / float(rng.uniform(2.05, 2.5) if rng.random() < .75 else rng.uniform(2.5, 4.2))
+    full = np.sin(2 * np.pi * t / P + float(rng.uniform(0, 6))) * (1 + .2 * np.sin(2 * np.pi * t / (3.1 * P))) + float(rng.uniform(-.5, .5)) * t / n
+    y = full if rng.random() < .5 else -full
+    target = 65536 * (1 if n < 131072 + 10 or rng.random() < .5 else 2) + int(gens.pick(rng, [-1, 0, 0]))
+    m = [i for i in np.nonzero((y[1:-1] > y[:-2]) & (y[1:-1] > y[2:]))[0] + 1 if i >= target and i - target + n <= len(y)]
+    if not m:
+        return full[:n], None
+    s = m[0] - target
+    return full[s:s + n], target
 
 
 def neighbours(rng, case, k=4):
@@ -91,8 +113,11 @@ def check_case(ctx, case):
     dig = digest(x, io, eo, xo)
     ctx.count('presentation:' + case.get('presentation', 'plain'))
     probe = SiftProbe(S)
+    clock = FastClock(case['clock_step']) if case.get('clock_step') else contextlib.nullcontext()
+    if case.get('clock_step'):
+        ctx.count('sifts_under_fast_clock')
     try:
-        with probe, watchdog(30):
+        with probe, watchdog(case.get('watchdog', 30)), clock:
             imf = S.sift(xin if case.get('presentation') == 'strided' else xin.copy(), imf_opts=dict(io), envelope_opts=dict(eo), extrema_opts=dict(xo))
     except WatchdogTimeout:
         ctx.count('watchdog')
@@ -121,7 +146,7 @@ def check_case(ctx, case):
     ctx.count('extractions_pathB', paths.count('B'))
     ctx.count('family:' + case['family'].split('+')[0])
     ctx.count('interp:' + eo['interp_method'])
-    ctx.count('stop:' + io['stop_method'])
+    ctx.count('stop:' + io.get('stop_method', 'default'))
     if len(x) < 15:
         ctx.count('short_signals')
     if imf.ndim != 2 or imf.shape[0] != len(x):
@@ -158,6 +183,19 @@ def run_shard(ctx):
     n = NCASES[ctx.tier] // ctx.nshards
     corpus = []
     done = 0
+    if ctx.shard % 4 == 1:
+        for _ in range(2):
+            for attempt in range(6):
+                x, target = long_swell(rng)
+                if target is not None and 2 in count_extrema(x):
+                    break
+            if target is None:
+                continue
+            if 2 in count_extrema(x):
+                ctx.count('very_long_records_with_exactly_two_crests_or_troughs')
+            ctx.count('very_long_records_with_extremum_on_block_edge')
+            check_case(ctx, {'kind': 'sift', 'family': 'long-swell', 'x': x, 'imf_opts': gens.pick(rng, [{}, {'stop_method': 'rilling', 'env_step_size': .5}]),
+                             'envelope_opts': {'interp_method': 'splrep'}, 'extrema_opts': gens.pick(rng, [{}, {'pad_width': 1}]), 'watchdog': 200})
     while done < n and not ctx.out_of_time():
         if corpus and rng.random() < .5:
             case = corpus.pop()
